@@ -15,7 +15,7 @@ import itertools
 import json
 import sys
 import types
-from typing import Dict, Optional
+from typing import Dict, List, Optional
 
 from xsdata.exceptions import XmlContextError  # noqa: F401
 from xsdata.formats.dataclass.context import XmlContext
@@ -53,10 +53,11 @@ def _warm_up():
 
 
 _warm_up()
+XSI_TYPE = "{http://www.w3.org/2001/XMLSchema-instance}type"
 _counter = itertools.count()
 _since_gc = 0
 
-KIND_META = {"element": "Element", "attribute": "Attribute", "wildcard": "Wildcard", "text": "Text"}
+KIND_META = {"element": "Element", "attribute": "Attribute", "wildcard": "Wildcard", "text": "Text", "elements": "Elements"}
 
 
 def cdef(name, base=None, model=True, pkg=True, ns=..., mname=None, tns=None, modns=None,
@@ -71,8 +72,19 @@ def cdef(name, base=None, model=True, pkg=True, ns=..., mname=None, tns=None, mo
     }
 
 
-def fdef(name, kind="element", mname=None, ns=None, cls=None, wrapper=None):
-    return {"name": name, "kind": kind, "mname": mname, "ns": ns, "cls": cls, "wrapper": wrapper}
+def fdef(name, kind="element", mname=None, ns=None, cls=None, wrapper=None, alts=()):
+    return {"name": name, "kind": kind, "mname": mname, "ns": ns, "cls": cls, "wrapper": wrapper,
+            "alts": [dict(a) for a in alts]}
+
+
+def alt(cls, name=None, ns=None):
+    """One entry of metadata['choices'] of a compound field (name=None: the key is absent -> 'any')."""
+    return {"name": name, "ns": ns, "cls": cls}
+
+
+def cfield(name, alts):
+    """A compound field: List[object] with type='Elements' and the given choices."""
+    return fdef(name, kind="elements", alts=alts)
 
 
 class Realm:
@@ -150,13 +162,26 @@ class Realm:
         if meta_attrs:
             ns["Meta"] = type("Meta", (), meta_attrs)
         for f in d["fields"]:
+            md = {"type": KIND_META[f["kind"]]}
+            if f["kind"] == "elements":
+                choices = []
+                for a in f.get("alts", ()):
+                    ch = {"type": self.classes[a["cls"]]}
+                    if a["name"] is not None:
+                        ch["name"] = a["name"]
+                    if a["ns"] is not None:
+                        ch["namespace"] = a["ns"]
+                    choices.append(ch)
+                md["choices"] = tuple(choices)
+                ns["__annotations__"][f["name"]] = List[object]
+                ns[f["name"]] = dataclasses.field(default_factory=list, metadata=md)
+                continue
             if f["cls"] is not None:
                 tp = Optional[self.classes[f["cls"]]]
             elif f["kind"] == "wildcard":
                 tp = Optional[object]
             else:
                 tp = Optional[str]
-            md = {"type": KIND_META[f["kind"]]}
             if f["mname"] is not None:
                 md["name"] = f["mname"]
             if f["ns"] is not None:
@@ -193,7 +218,11 @@ class Realm:
             if t[0] == "enter":
                 o = self.cls(t[2])()
                 if stack:
-                    setattr(stack[-1], dataclasses.fields(stack[-1])[t[1]].name, o)
+                    fld = dataclasses.fields(stack[-1])[t[1]]
+                    if fld.metadata.get("type") == "Elements":
+                        getattr(stack[-1], fld.name).append(o)  # a compound field holds a list
+                    else:
+                        setattr(stack[-1], fld.name, o)
                 else:
                     root = o
                 stack.append(o)
@@ -219,13 +248,16 @@ class Realm:
             return "wildcard"
         if v.is_text:
             return "text"
+        if v.is_elements:
+            return "elements"
         return "other"
 
     def meta(self, m):
         return {
             "cls": self.cid(m.clazz), "qname": m.qname, "ns": m.namespace, "tq": m.target_qname,
             "vars": [
-                [v.index, v.name, v.local_name, v.qname, sorted(v.namespaces), self.var_kind(v), self.cid(v.clazz), v.wrapper]
+                [v.index, v.name, v.local_name, v.qname, sorted(v.namespaces), self.var_kind(v), self.cid(v.clazz), v.wrapper,
+                 [[q, self.cid(ch.clazz)] for q, ch in v.elements.items()]]
                 for v in m.get_all_vars()
             ],
         }
@@ -241,8 +273,11 @@ class Realm:
         }
 
     # ------------------------------------------------------------ one call
-    def call(self, ctx, op):
-        """Run one context method; return the model's Out shape."""
+    def call(self, ctx, op, gen=None):
+        """Run one context method; return the model's Out shape.  `gen`: the
+        EventGenerator instance to serialise with (one per history for the shared
+        side: the model says serialisation depends on the context alone, so a
+        serializer instance must not carry anything from call to call)."""
         k = op["k"]
         try:
             if k == "build":
@@ -268,8 +303,11 @@ class Realm:
             if k == "serialize":
                 from xsdata.formats.dataclass.serializers.mixins import EventGenerator
 
-                events = list(EventGenerator(context=ctx).generate(self.obj(op["toks"])))
-                return {"names": [e[1] for e in events if e[0] == "start"]}
+                gen = gen if gen is not None else EventGenerator(context=ctx)
+                events = list(gen.generate(self.obj(op["toks"])))
+                # START names, and the xsi:type attributes as "@<qname>"
+                return {"names": [e[1] if e[0] == "start" else "@" + str(e[2]) for e in events
+                                  if e[0] == "start" or (e[0] == "attr" and e[1] == XSI_TYPE)]}
         except (XmlContextError, ValueError, KeyError, IndexError) as e:
             return {"err": type(e).__name__}
         except Exception as e:  # noqa: BLE001
@@ -304,11 +342,14 @@ def run_steps(universe, steps, keep=False):
     else:
         realm, memo, close = Realm(universe), None, True
     try:
+        from xsdata.formats.dataclass.serializers.mixins import EventGenerator
+
         shared = realm.context()
+        shared_gen = EventGenerator(context=shared)  # one serializer instance for the whole history
         out = []
         for st in steps:
             realm.set_world(st["loaded"], st["mods"])
-            o = realm.call(shared, st["op"])
+            o = realm.call(shared, st["op"], shared_gen)
             if memo is None:
                 f = realm.call(realm.context(), st["op"])
             else:
